@@ -1,8 +1,183 @@
-From Coq Require Import ZArith List.
+(* C03 - The emulator replays all streams as one time-ordered, loss-free sequence.
+   Only statements here; proofs are in Proofs/HeapProofs.v and Proofs/PlayerProofs.v.
+   Model: Emu/HeapDefs.v (array model of src/include/heap.h, same tie-breaking) and
+   Emu/PlayerDefs.v (player.c / stream.c clock handling, trace.c ordering; Spec section).
+   No bound on the number of streams, their lengths, or the heap size anywhere. *)
+From Coq Require Import ZArith List Permutation Sorted.
 From OV Require Import Emu.HeapDefs Emu.PlayerDefs Proofs.HeapProofs Proofs.PlayerProofs.
 Import ListNotations.
 Local Open Scope Z_scope.
 
-Theorem C03_heap_pop_none : forall (h : list hnode), pop_max stream_cmp h = None <-> h = [].
-Proof. exact (pop_max_nil stream_cmp). Qed.
+(* ------------------------------------------------------------------ the heap (any legal comparison) *)
+
+(* content: nothing lost, nothing duplicated *)
+Theorem C03_heap_insert_content : forall (A : Type) (cmp : A -> A -> Z) h x,
+  Permutation (insert cmp h x) (x :: h).
+Proof. exact @insert_perm. Qed.
+Print Assumptions C03_heap_insert_content.
+
+Theorem C03_heap_pop_content : forall (A : Type) (cmp : A -> A -> Z) h x h',
+  pop_max cmp h = Some (x, h') -> Permutation (x :: h') h.
+Proof. exact @pop_max_perm. Qed.
+Print Assumptions C03_heap_pop_content.
+
+Theorem C03_heap_pop_none : forall (A : Type) (cmp : A -> A -> Z) h, pop_max cmp h = None <-> h = [].
+Proof. exact @pop_max_none. Qed.
 Print Assumptions C03_heap_pop_none.
+
+(* order: parent >= child is preserved, for every comparison function that is
+   sign-antisymmetric and transitive (what heap_node_compare_t documents) *)
+Theorem C03_heap_insert_order : forall (A : Type) (cmp : A -> A -> Z),
+  (forall a b, cmp a b > 0 <-> cmp b a < 0) ->
+  (forall a b c, cmp a b >= 0 -> cmp b c >= 0 -> cmp a c >= 0) ->
+  forall h x, HeapInv cmp h -> HeapInv cmp (insert cmp h x).
+Proof. exact @insert_inv. Qed.
+Print Assumptions C03_heap_insert_order.
+
+Theorem C03_heap_pop_order : forall (A : Type) (cmp : A -> A -> Z),
+  (forall a b, cmp a b > 0 <-> cmp b a < 0) ->
+  (forall a b c, cmp a b >= 0 -> cmp b c >= 0 -> cmp a c >= 0) ->
+  forall h x h', HeapInv cmp h -> pop_max cmp h = Some (x, h') -> HeapInv cmp h'.
+Proof. exact @pop_max_inv. Qed.
+Print Assumptions C03_heap_pop_order.
+
+Theorem C03_heap_pop_is_max : forall (A : Type) (cmp : A -> A -> Z),
+  (forall a b, cmp a b > 0 <-> cmp b a < 0) ->
+  (forall a b c, cmp a b >= 0 -> cmp b c >= 0 -> cmp a c >= 0) ->
+  forall h x h', HeapInv cmp h -> pop_max cmp h = Some (x, h') -> forall y, In y h -> cmp x y >= 0.
+Proof. exact @pop_max_is_max. Qed.
+Print Assumptions C03_heap_pop_is_max.
+
+(* the player's instance: the popped stream has the smallest clock *)
+Theorem C03_heap_pop_min_clock : forall h k id h',
+  HeapInv stream_cmp h -> pop_max stream_cmp h = Some ((k, id), h') ->
+  forall k' id', In (k', id') h -> k <= k'.
+Proof. exact spop_min. Qed.
+Print Assumptions C03_heap_pop_min_clock.
+
+(* path lemma: the walk of heap_get(head, n) (heap_get_move on size_t) ends at array position n,
+   which is why the C never dies on "parent->left/right already set" or follows NULL *)
+Theorem C03_heap_get_reaches : forall n fuel,
+  1 <= n -> (Z.to_nat (Z.log2 n) < fuel)%nat -> walk 1 (get_path fuel n) = n.
+Proof. exact heap_get_reaches. Qed.
+Print Assumptions C03_heap_get_reaches.
+
+(* ------------------------------------------------------------------ the replay *)
+
+(* ovniemu, for every set of sorted streams (stream_ok: corrected clocks non-decreasing and the
+   first one >= 0, the initial stream.lastclock) within the clock gate, in any enumeration order:
+   the replay completes and its output is a permutation of all tagged events (spec_complete),
+   keeps the order inside each stream (spec_stream_order), carries corrected time = clock + offset
+   (spec_corrected), is non-decreasing in corrected time (spec_sorted) and has Paraver time =
+   corrected - corrected of the first event (spec_dclock). *)
+Theorem C03_emu_replay : forall enum,
+  (forall x, In x enum -> stream_ok (snd x) = true) -> gate_ok (trace_streams enum) = true ->
+  exists out, run_emu enum = (out, VOk) /\ spec_all (trace_streams enum) out.
+Proof. exact emu_replay. Qed.
+Print Assumptions C03_emu_replay.
+
+(* the components, named as in DESIGN.md 6.3 *)
+Theorem C03_merge_complete : forall enum out, run_emu enum = (out, VOk) -> spec_complete (trace_streams enum) out.
+Proof. intros enum out E. exact (proj1 (proj1 (emu_completed enum out E))). Qed.
+Print Assumptions C03_merge_complete.
+
+Theorem C03_stream_order : forall enum out, run_emu enum = (out, VOk) -> spec_stream_order (trace_streams enum) out.
+Proof. intros enum out E. exact (proj1 (proj2 (proj1 (emu_completed enum out E)))). Qed.
+Print Assumptions C03_stream_order.
+
+Theorem C03_sorted : forall enum out, run_emu enum = (out, VOk) ->
+  spec_corrected (trace_streams enum) out /\ spec_sorted out.
+Proof.
+  intros enum out E. destruct (emu_completed enum out E) as [[_ [_ [H3 [H4 _]]]] _]. exact (conj H3 H4).
+Qed.
+Print Assumptions C03_sorted.
+
+Theorem C03_paraver_time : forall enum out, run_emu enum = (out, VOk) -> spec_dclock out.
+Proof. intros enum out E. exact (proj2 (proj2 (proj2 (proj2 (proj1 (emu_completed enum out E)))))). Qed.
+Print Assumptions C03_paraver_time.
+
+(* a stream that goes backwards (or starts below 0) gives an error result, so does a clock gate *)
+Theorem C03_backwards_rejected : forall enum x,
+  In x enum -> stream_ok (snd x) = false -> forall out v, run_emu enum = (out, v) -> v <> VOk.
+Proof. exact emu_backwards_rejected. Qed.
+Print Assumptions C03_backwards_rejected.
+
+Theorem C03_gate_rejected : forall enum,
+  gate_ok (trace_streams enum) = false -> forall out v, run_emu enum = (out, v) -> v <> VOk.
+Proof. exact emu_gate_rejected. Qed.
+Print Assumptions C03_gate_rejected.
+
+(* the verdicts VFuel / VInternal of the totalised model never occur *)
+Theorem C03_verdict_no_artefact : forall sorted ss out v,
+  run sorted ss = (out, v) ->
+  v = VOk \/ (sorted = true /\ ((exists id, v = VBackStream id) \/ v = VBackPlayer \/ v = VGate)).
+Proof. exact run_verdict. Qed.
+Print Assumptions C03_verdict_no_artefact.
+
+(* independence from the enumeration order of the stream directories: the FULL output sequence
+   (ties included) and the verdict are equal for any two enumerations of the same streams *)
+Theorem C03_enum_independent : forall enum enum',
+  Permutation enum enum' -> NoDup (map fst enum) -> run_emu enum = run_emu enum'.
+Proof. exact run_emu_enum_independent. Qed.
+Print Assumptions C03_enum_independent.
+
+Theorem C03_enum_independent_dump : forall enum enum',
+  Permutation enum enum' -> NoDup (map fst enum) -> run_dump enum = run_dump enum'.
+Proof. exact run_dump_enum_independent. Qed.
+Print Assumptions C03_enum_independent_dump.
+
+(* ovnidump (unsorted = 1, no system_init => all clock offsets 0): never fails, loses nothing,
+   keeps the order inside each stream; sorted by the RAW clock when the streams are sorted *)
+Theorem C03_dump_replay : forall enum,
+  exists out, run_dump enum = (out, VOk) /\
+    let ss := trace_streams (map zero_off enum) in
+    spec_complete ss out /\ spec_stream_order ss out /\ spec_corrected ss out /\ spec_dclock out /\
+    ((forall x, In x enum -> stream_sorted (snd (zero_off x)) = true) -> spec_sorted out).
+Proof. exact dump_replay. Qed.
+Print Assumptions C03_dump_replay.
+
+(* The property's "dump tools ... non-decreasing in corrected time" is false of ovnidump as soon
+   as the offset table is not trivial (finding ovnidump-ignores-clock-offsets). *)
+Theorem C03_dump_corrected_order_refuted :
+  exists enum out,
+    NoDup (map fst enum) /\ (forall x, In x enum -> stream_ok (snd x) = true) /\
+    gate_ok (trace_streams enum) = true /\
+    run_dump enum = (out, VOk) /\
+    ~ Sorted Z.le (map (corrected_in (trace_streams enum)) out).
+Proof. exact dump_corrected_order_refuted. Qed.
+Print Assumptions C03_dump_corrected_order_refuted.
+
+(* ------------------------------------------------------------------ non-vacuity *)
+
+(* three streams enumerated out of order, cross-stream ties, an offset, an empty stream *)
+Definition ex_enum : list (list Z * strm) :=
+  [ ([99], mkstrm 0 [(10, 0); (20, 1); (20, 2)]);
+    ([97], mkstrm (-100) [(110, 0); (120, 1)]);
+    ([98; 49], mkstrm 0 []);
+    ([98], mkstrm 5 [(5, 0); (15, 1); (15, 2); (40, 3)]) ].
+
+Example C03_ex_hyp : forallb (fun x => stream_ok (snd x)) ex_enum = true /\ gate_ok (trace_streams ex_enum) = true.
+Proof. vm_compute. auto. Qed.
+
+Example C03_ex_run :
+  map (fun o => (o_id o, o_rclock o, o_sclock o, o_dclock o)) (fst (run_emu ex_enum)) =
+  [ (0%nat, 110, 10, 0); (3%nat, 10, 10, 0); (1%nat, 5, 10, 0);
+    (3%nat, 20, 20, 10); (1%nat, 15, 20, 10); (3%nat, 20, 20, 10); (1%nat, 15, 20, 10); (0%nat, 120, 20, 10);
+    (1%nat, 40, 45, 35) ] /\ snd (run_emu ex_enum) = VOk.
+Proof. vm_compute. auto. Qed.
+
+Example C03_ex_backwards : snd (run_emu [([97], mkstrm 0 [(10, 0); (9, 1)]); ([98], mkstrm 0 [(5, 0)])]) = VBackStream 0.
+Proof. vm_compute. reflexivity. Qed.
+
+Example C03_ex_negative : snd (run_emu [([97], mkstrm (-11) [(10, 0)])]) = VBackStream 0.
+Proof. vm_compute. reflexivity. Qed.
+
+Example C03_ex_gate : snd (run_emu [([97], mkstrm 0 [(0, 0)]); ([98], mkstrm 0 [(3600000000001, 0)])]) = VGate.
+Proof. vm_compute. reflexivity. Qed.
+
+(* a heap with ties: the array after each operation is the C's (compare harness/heap_h.c) *)
+Example C03_ex_heap :
+  let h := fold_left (insert stream_cmp) [(5, 0%nat); (3, 1%nat); (3, 2%nat); (7, 3%nat)] [] in
+  map snd h = [1%nat; 0%nat; 2%nat; 3%nat] /\ heap_inv_b stream_cmp h = true /\
+  option_map (fun r => (snd (fst r), map snd (snd r))) (pop_max stream_cmp h) = Some (1%nat, [2%nat; 0%nat; 3%nat]).
+Proof. vm_compute. auto. Qed.
